@@ -69,6 +69,28 @@ br_ssl_client_reset(br_ssl_client_context *cc,
 	{
 		br_ssl_client_forget_session(cc);
 	}
+
+	/*
+	 * Likewise, a session whose cipher suite we no longer propose
+	 * must not be offered: the suite list of a resumption request
+	 * must include the suite of the session (RFC 5246, 7.4.1.2),
+	 * and some servers answer a request that does not with a fatal
+	 * alert instead of a full handshake.
+	 */
+	if (cc->eng.session.session_id_len != 0) {
+		size_t u;
+
+		for (u = 0; u < cc->eng.suites_num; u ++) {
+			if (cc->eng.suites_buf[u]
+				== cc->eng.session.cipher_suite)
+			{
+				break;
+			}
+		}
+		if (u == cc->eng.suites_num) {
+			br_ssl_client_forget_session(cc);
+		}
+	}
 	if (!br_ssl_engine_init_rand(&cc->eng)) {
 		return 0;
 	}
